@@ -47,7 +47,7 @@ def spec_from_seed(run_seed, tier):
                 "sched": {"seed": rnd.randrange(1 << 48), "choice_policy": "faithful", "draw_policy": "natural", "script": None, "budget": 30000},
                 "n_generators": 1, "faults": []}
     for _ in range(20):
-        text, tags, sysw = archetypes.gen_system(rnd, {"safe_dist": rnd.random() < 0.7, "allow_selfclose": True})
+        text, tags, sysw = archetypes.gen_system(rnd, {"safe_dist": rnd.random() < 0.7, "allow_selfclose": True, "allow_zero_mass": True})
         if archetypes.token_budget_ok(text):
             break
     n_gen = rnd.choice([1, 1, 2, 2, 3])
